@@ -70,6 +70,6 @@ def update_status_contract(pid="C14"):
         loops={0: {"invariants": []}, 1: {"invariants": []}},
         allow_raise=False,
         no_raise_role=f"property:{pid}",
-        min_paths=3,
+        min_paths=2,
         trusted=["Job.done raises only ValueError (for an errored result); Job.errored and Job.run_start_time do not raise; dict item assignment and pop of an existing key do not raise"],
     )
